@@ -43,7 +43,8 @@ ASSUMPTIONS = [
 REACH = {t: ["kind_error", "kind_rstack", "kind_silent", "kind_naksilent", "kind_lost", "kind_eof", "phase_bringup", "phase_idle",
              "phase_inflight", "phase_reset", "phase_after_close", "reset_request_observed",
              "new_command_refused_at_once", "timer_aligned", "deliberate_close_silent", "queued_calls_released",
-             "failure_after_an_earlier_unattended_failure", "caller_cancelled_in_the_failure_iteration"]
+             "failure_after_an_earlier_unattended_failure", "caller_cancelled_in_the_failure_iteration",
+             "failure_after_xoff", "xoff_in_the_history", "deliberate_close_with_commands_in_progress"]
          for t in ("quick", "thorough")}
 SHARD_TIMEOUT = {"quick": 900, "thorough": 3600}
 
@@ -226,6 +227,14 @@ def run_case(V, case):
             state["registered"] = True
             trace.append(("registered", clock()))
             phase[0] = "idle"
+            if case.get("xoff"):
+                # history: the NCP sent a lone XOFF (its receive buffer was full for a moment) - and, variant
+                # "xx", an XON shortly after.  ASH hosts may ignore the two bytes or honour them; whichever
+                # they do, a failure later on is reported and releases whoever is waiting.
+                loop.io_at(clock() + 0.01, ws.line._deliver, "n2h", b"\x13")
+                if case["xoff"] == "xx":
+                    loop.io_at(clock() + 0.2, ws.line._deliver, "n2h", b"\x11")
+                trace.append(("xoff", clock(), case["xoff"]))
             await asyncio.sleep(0.5)
             phase[0] = "inflight"
             await asyncio.gather(call("A", ez.getEui64), call("B", ez.nop), call("C", ez.getNodeId))
@@ -237,6 +246,11 @@ def run_case(V, case):
             phase[0] = "after_reset"
             await call("D", ez.getEui64)
             phase[0] = "closing"
+            if case.get("close_busy"):
+                # the port is closed on purpose while a command is in flight and two more wait behind it
+                busy = [asyncio.ensure_future(call(n_, f_)) for n_, f_ in (("E", ez.getEui64), ("F", ez.nop), ("G", ez.getNodeId))]
+                await asyncio.sleep(0.0005)
+                trace.append(("close_while_busy", clock()))
             trace.append(("deliberate_close", clock()))
             state["closed"] = True
             try:
@@ -276,11 +290,26 @@ def judge(V, case, trace, info):
         else:
             facts.add("deliberate_close_silent")
         for k, c in info["calls"].items():
+            if k in ("E", "F", "G") and case.get("close_busy"):
+                # cut off by the deliberate close: how they end is open, that they end is not
+                if c["end"] is None and not info["hang"]:
+                    bad.append(("C10/termination/call-never-ended", f"{k}, in progress at the deliberate close, never returned or raised"))
+                else:
+                    facts.add("deliberate_close_with_commands_in_progress")
+                continue
             if c["outcome"] != "ret":
+                if case.get("xoff") == "x" and k not in ("connect", "startup_reset"):
+                    # a host that honours XOFF legitimately stops sending until XON: commands then time out
+                    facts.add("commands_held_back_after_xoff")
+                    continue
                 bad.append(("C10/fault-free/call-failed", f"fault-free workload: {k} ended with {c['outcome']}"))
+        if case.get("xoff"):
+            facts.add("xoff_in_the_history")
         return bad, facts
     kind = case["kind"]
     facts.add("kind_" + kind)
+    if case.get("xoff"):
+        facts.add("failure_after_xoff")
     t_sil = info.get("t_silence")
     if dc is not None and tf <= dc <= tf + 0.003 and kind in ("error", "rstack"):
         # the failure frame was still on the line when the host closed the port: nothing is demanded
@@ -432,6 +461,31 @@ def run_shard(desc) -> Acc:
         for i in range(0, n + 1, 1 if desc["tier"] == "thorough" else 2):
             for off in (0.0015, 0.0035):
                 cases.append({"kind": desc["kind"], "code": desc["code"], "at": i, "offset": off, "cancel_first": True})
+    # histories with a lone XOFF (or XOFF ... XON) from the NCP before the failure
+    reg0 = next((e[1] for e in trace0 if e[0] == "registered"), None)
+    first0 = sum(1 for e in trace0 if e[0] == "line" and reg0 is not None and e[1] < reg0)
+    for xo in ("x", "xx"):
+        tr_x, info_x = run_case(V, {"kind": None, "xoff": xo})
+        acc.case()
+        bx, fx = judge(V, {"kind": None, "xoff": xo}, tr_x, info_x)
+        for key, msg in bx:
+            acc.violation(key, msg, {"version": V, "kind": None, "xoff": xo}, pretty(tr_x)[:80])
+        for f in fx:
+            acc.hit(f)
+        for i in range(first0, n + 1, 2 if desc["tier"] == "thorough" else 4):
+            cases.append({"kind": desc["kind"], "code": desc["code"], "at": i, "offset": 0.0015, "xoff": xo})
+    # the deliberate close with commands in flight and queued - alone, and with the failure around it
+    tr_c, info_c = run_case(V, {"kind": None, "close_busy": True})
+    acc.case()
+    bc, fc = judge(V, {"kind": None, "close_busy": True}, tr_c, info_c)
+    for key, msg in bc:
+        acc.violation(key, msg, {"version": V, "kind": None, "close_busy": True}, pretty(tr_c)[-60:])
+    for f in fc:
+        acc.hit(f)
+    n_c = info_c.get("n_frames", n)
+    for i in range(max(0, n - 4), n_c + 2):
+        for off in (0.0, 0.0015):
+            cases.append({"kind": desc["kind"], "code": desc["code"], "at": i, "offset": off, "close_busy": True})
     for case in cases:
         acc.case()
         trace, info = run_case(V, case)
